@@ -42,15 +42,34 @@ constructor arguments rejected.  Known-finding keys (all inputs of one defect ma
   CenterSliceErrorModel.nonfinite-limit-accepted  a limit with a NaN / +inf component (none negative) is accepted
   probability_distribution.negative-identity-rounding   Pr(I) = 1 - sum(...) is in [-2^-50, 0) for p >= 1 - 2^-50
   CenterSliceErrorModel.neg-lim-rounding   pos < 0: an entry whose exact value is <= 1e-15 p is in [-1e-15 p, 0)
+  BiasedYXErrorModel.huge-bias-overflow   an accepted finite bias > sqrt(max double) = 1.34e154 makes
+      probability_distribution raise OverflowError for every p (`h ** 2` in _root); recognised only for that exception
+      and only when bias*bias overflows
+  CenterSliceErrorModel.limit-sum-overflow   an accepted limit with finite components whose sum overflows (e.g.
+      (1.7e308, 9e307, 0)) is normalised to (0, 0, 0): pos >= 0 gives Pr(I) != 1-p (pos 1: (1,0,0,0) for every p), pos < 0
+      gives NaN entries
+PARAMETER MAGNITUDES.  The documented domains are scale-free (bias > 0 resp. >= 0 and finite; limit = non-negative
+finite components with one or two zeros, "possibly unnormalised"; -1 <= pos <= 1), so every parameter also ranges over
+the whole positive double range: log-uniform over all decades 5e-324 ... 1.8e308 (sub-normals included), the regime
+thresholds of x*x, x*x*x, 1/x, 1/(x*x), x+x with a neighbour on each side (EDGE_MAGS), independent magnitudes per limit
+component (dynamic range up to 1e632), one extreme common scale times ordinary numbers, near-ties at an extreme scale,
+tiny positions.  Constructor: interior limits (three positive components) must be rejected at every magnitude (also
+when the product / sum of the components underflows), boundary limits and every positive finite bias accepted
+(`in_domain` compares the values themselves).  For accepted values the same monitors and the same exact tie apply;
+claims are relative and therefore waived only for entries whose exact value is below 1e-290 (underflow range), the
+biased-Y-X enclosure brackets the square root RELATIVELY (shifted integer square root) and uses the exactly equal
+quotient forms 2p/(a+s), 2hp/(b+s) so that it stays tight at bias 1e-300; the bias equation gets an absolute floor of
+16 sub-normal ulps (2^-1070).
 Measured failing region of the biased-Y-X closed form on the unchanged tree (eps = 2.2e-16, a = 1+h+p-hp):
 negative p_y, p_z when bias <~ 1.5e-8 sqrt((1-p)/p) (r_y = (b-s)/(2h) has absolute error eps/(2h)); |Pr(I)-(1-p)| >
 1e-12 when bias <~ 1e-4 or 1e4 <~ bias <~ 1e11 (r_x = (a-s)/2 has absolute error eps*a); ValueError('math domain
 error') or negative p_x when (1-p)*max(bias,1e-16) <~ 4e-16, in particular at p = 1.0 for about a quarter of all biases
-below 1.  Biases above ~1e154 raise OverflowError (outside the explored range).
+below 1.
 A tree that rejects limits with negative / non-finite components (ValueError) passes the constructor tie as well.
 """
 import json
 import math
+import sys
 import warnings
 from fractions import Fraction
 
@@ -67,7 +86,10 @@ RULE = ('probability_distribution(p) of the real models on p in {0,1e-30,1e-12,1
         'near +-1}; every entry compared RELATIVELY (1e-14, floors only where the documented formula subtracts) with '
         'the exact value / a rigorous rational enclosure of the biased-Y-X closed form; constructor calls over a '
         'value universe (ints, bools, floats incl. -0.0, NaN, '
-        '+-inf, str, None, sequences of length 0..4 with zero / negative / non-finite components). Compared with the '
+        '+-inf, str, None, sequences of length 0..4 with zero / negative / non-finite components); PARAMETER MAGNITUDES '
+        'over the whole positive double range (bias, limit components, |pos| log-uniform in 5e-324..1.8e308, regime '
+        'thresholds of x*x, x^3, 1/x, x+x, independent / common / near-tie component scales; interior limits with '
+        'underflowing products must be rejected, boundary limits and biases of any magnitude accepted). Compared with the '
         'exact rational Lean model within the tolerance stated in the module docstring; direct monitors on the real '
         'floats. non-trivial = a case with 0 < p and a parameterised model, or a constructor rejection')
 
@@ -76,6 +98,8 @@ K_D4 = 'CenterSliceErrorModel.negative-limit-accepted'
 K_NF = 'CenterSliceErrorModel.nonfinite-limit-accepted'
 K_PI = 'probability_distribution.negative-identity-rounding'
 K_NL = 'CenterSliceErrorModel.neg-lim-rounding'
+K_OV = 'BiasedYXErrorModel.huge-bias-overflow'
+K_SO = 'CenterSliceErrorModel.limit-sum-overflow'
 
 REL = Fraction(1, 10 ** 14)        # relative tolerance of every entry (clean tree: <= 4.6e-16)
 ABS_I = Fraction(1, 10 ** 15)      # additive floor of Pr(I) = 1 - sum
@@ -85,6 +109,10 @@ RES = Fraction(1, 10 ** 9)         # relative residual of the bias / independenc
 RES_SUM = Fraction(1, 10 ** 12)    # relative residual of p_x + p_y + p_z = p
 SQRT_BITS = 400
 TINY = Fraction(1, 10 ** 290)      # below this a double underflows: no positivity / relative claim
+SUBN = Fraction(1, 2 ** 1070)      # 16 ulps of the sub-normal range: absolute rounding noise of a gradual underflow
+FMAX = sys.float_info.max          # 1.797e308
+FMIN = sys.float_info.min          # 2.225e-308, smallest normal
+DMIN = 5e-324                      # smallest sub-normal
 NAMES = 'IXYZ'
 SIMPLE = ('dep', 'bf', 'pf', 'bpf')
 
@@ -196,13 +224,22 @@ def byx_enclosure(bias, p):
     a, b = 1 + h + p - h * p, 1 + h - p + h * p
     disc = a * a - 4 * p
     assert disc >= 0
-    r = math.isqrt((disc.numerator << (2 * SQRT_BITS)) // disc.denominator)
-    s_lo, s_hi = Fraction(r, 1 << SQRT_BITS), Fraction(r + 1, 1 << SQRT_BITS)
-    if s_lo * s_lo == disc:
-        s_hi = s_lo
+    if disc == 0:
+        s_lo = s_hi = Fraction(0)
+    else:
+        # RELATIVE bracket of s (bias ranges over the whole double range, 5e-324 ... 1.8e308): shift the radicand so
+        # that its integer square root has at least SQRT_BITS bits
+        n, dn = disc.numerator, disc.denominator
+        k = max(0, SQRT_BITS + 1 - (n.bit_length() - dn.bit_length()) // 2)
+        r = math.isqrt((n << (2 * k)) // dn)
+        s_lo, s_hi = Fraction(r, 1 << k), Fraction(r + 1, 1 << k)
+        if s_lo * s_lo == disc:
+            s_hi = s_lo
     one, zero = Fraction(1), Fraction(0)
-    rx_lo, rx_hi = max(zero, (a - s_hi) / 2), min(one, (a - s_lo) / 2)
-    ry_lo, ry_hi = max(zero, (b - s_hi) / (2 * h)), min(one, (b - s_lo) / (2 * h))
+    # (a - s)/2 = 2p/(a + s) and (b - s)/(2h) = 2hp/(b + s) exactly (s^2 = a^2 - 4p = b^2 - 4h^2 p; a, b > 0): the
+    # quotients keep the bracket relative where the differences would lose it (bias 1e-300: (b - s)/(2h))
+    rx_lo, rx_hi = max(zero, 2 * p / (a + s_hi)), min(one, 2 * p / (a + s_lo))
+    ry_lo, ry_hi = max(zero, 2 * h * p / (b + s_hi)), min(one, 2 * h * p / (b + s_lo))
     lo = [None, rx_lo * (1 - ry_hi), ry_lo * (1 - rx_hi), rx_lo * ry_lo]
     hi = [None, rx_hi * (1 - ry_lo), ry_hi * (1 - rx_lo), rx_hi * ry_hi]
     lo[0], hi[0] = 1 - p, 1 - p
@@ -256,6 +293,20 @@ def lim_class(lim):
     return None
 
 
+def lim_sum_overflows(lim):
+    """all components finite and non-negative but their float sum is +inf"""
+    try:
+        vals = [float(x) for x in lim]
+    except (TypeError, ValueError, OverflowError):
+        return False
+    return all(math.isfinite(x) and x >= 0 for x in vals) and math.isinf(sum(vals))
+
+
+def square_overflows(bias):
+    """bias is a finite float whose square is not (bias > sqrt(max double) = 1.34e154)"""
+    return isinstance(bias, (int, float)) and math.isfinite(bias) and math.isinf(float(bias) * float(bias))
+
+
 def evaluate(model, args, p):
     """evaluate the property on the real code for one input. returns (status, value, fails) where fails is a list of
     (what, key-or-None)"""
@@ -264,12 +315,16 @@ def evaluate(model, args, p):
     byx_known = None
     if model == 'byx':
         byx_known = (byx_reference(args[0], p) == (st, d))
+    # the whole failure of a limit whose component sum overflows (normalised to (0, 0, 0)) is one defect
+    k_so = K_SO if model == 'slice' and lim_sum_overflows(args[0]) else None
     if st == 'exc':
-        fails.append(('probability_distribution raised {} for p in [0,1] and accepted parameters'.format(d),
-                      K_D3 if byx_known else None))
+        key = K_D3 if byx_known else k_so
+        if model == 'byx' and d == 'OverflowError' and square_overflows(args[0]):
+            key = K_OV
+        fails.append(('probability_distribution raised {} for p in [0,1] and accepted parameters'.format(d), key))
         return st, d, fails
     if any(not math.isfinite(x) for x in d):
-        fails.append(('non-finite entry', K_D3 if byx_known else None))
+        fails.append(('non-finite entry', K_D3 if byx_known else k_so))
         return st, d, fails
     pf = Fraction(p)
     e = spec(model, args, pf)
@@ -277,7 +332,7 @@ def evaluate(model, args, p):
     F = [Fraction(x) for x in d]
     for i, x in enumerate(d):
         if x < 0:
-            key = None
+            key = k_so
             if byx_known:
                 key = K_D3
             elif model != 'byx' and i == 0 and x >= -2.0 ** -50 and p >= 1 - 2.0 ** -50:
@@ -286,7 +341,7 @@ def evaluate(model, args, p):
                     F[i] >= -ABS_I * pf and e[i] <= ABS_I * pf:
                 key = K_NL
             fails.append(('negative entry Pr({}) = {!r}'.format(NAMES[i], x), key))
-    kk = K_D3 if byx_known else None
+    kk = K_D3 if byx_known else k_so
     if abs(sum(F) - 1) > TOL:
         fails.append(('entries sum to {!r}, not 1'.format(float(sum(F))), kk))
     if abs(F[0] - (1 - pf)) > TOL:
@@ -303,7 +358,8 @@ def evaluate(model, args, p):
         lows = [F[j] for j in (1, 2, 3) if j != i]
         if lows[0] != lows[1]:
             fails.append(('the two low rates differ', None))
-        if abs(F[i] - Fraction(args[0]) * sum(lows)) > REL * F[i]:
+        # (no ratio claim where the exact high or low rate is in the underflow range of doubles)
+        if min(e[1:]) >= TINY and abs(F[i] - Fraction(args[0]) * sum(lows)) > REL * F[i]:
             fails.append(('high rate / sum of low rates = {!r}, not bias'.format(
                 float(F[i] / sum(lows)) if sum(lows) else None), None))
     elif model == 'byx':
@@ -326,7 +382,7 @@ def evaluate(model, args, p):
         if not entry_ok(model, args, pf, i, d[i], lo, hi, rates):
             fails.append(('Pr({}) = {!r}, documented value {!r} (relative error {:.3e})'.format(
                 NAMES[i], d[i], float(lo[i]), float(abs(F[i] - lo[i]) / lo[i]) if lo[i] else float('inf')),
-                None))
+                k_so))
     return st, d, fails
 
 
@@ -340,7 +396,7 @@ def byx_res_ok(p, b, F, r1, r2, r3):
     p_x = r_x (1 - r_y), p_y = r_y (1 - r_x), with r_x = p_x + p_z and r_y = p_y + p_z read off the candidate"""
     rx, ry = F[1] + F[3], F[2] + F[3]
     return (abs(r1) <= RES_SUM * p and
-            abs(r2) <= RES * b * abs(F[1]) + 2 * FLOOR * (abs(ry) + b * abs(rx)) and
+            abs(r2) <= RES * b * abs(F[1]) + 2 * FLOOR * (abs(ry) + b * abs(rx)) + SUBN and
             abs(r3) <= RES * abs(F[3]) + TINY)
 
 
@@ -469,11 +525,104 @@ def rand_pos(rng):
     return rng.uniform(-1, 1)
 
 
+def _thresholds():
+    """magnitudes at which an elementary operation on a double changes regime: ends of the sub-normal / normal range,
+    and the points where x*x, x*x*x, 1/x, 1/(x*x), x + x, 2*(x + 1) over- or underflow (with a neighbour on each side)"""
+    base = [DMIN, 2 * DMIN, 1e-320, 1e-310, FMIN, FMIN / 2, 1 / FMAX, 4 / FMAX, FMAX, FMAX / 2, FMAX / 3, FMAX / 4,
+            math.sqrt(FMAX), 1 / math.sqrt(FMAX), math.sqrt(FMIN), math.sqrt(DMIN), 1 / math.sqrt(FMIN),
+            1 / math.sqrt(DMIN), FMAX ** (1 / 3), DMIN ** (1 / 3), FMIN ** (1 / 3), FMAX ** 0.25, DMIN ** 0.25,
+            2.0 ** -1022, 2.0 ** -537, 2.0 ** -511, 2.0 ** 511, 2.0 ** 512, 2.0 ** 1023]
+    out = set(base)
+    for x in base:
+        for y in (math.nextafter(x, 0.0), math.nextafter(x, math.inf), x * 0.99, x * 1.01):
+            if 0 < y < math.inf:
+                out.add(y)
+    return sorted(out)
+
+
+EDGE_MAGS = _thresholds()
+DECADES = [10.0 ** k for k in (-323, -320, -315, -310, -308, -305, -300, -280, -250, -200, -170, -165, -160, -155,
+                               -154, -150, -120, -108, -100, -80, -50, -30, -20, 20, 30, 50, 80, 100, 102, 120, 150,
+                               153, 154, 155, 160, 200, 250, 280, 300, 305, 307, 308)]
+X_SHAPES = [(1, 0, 0), (0, 1, 0), (0, 0, 1), (4, 1, 0), (0, 1, 3), (2, 0, 3), (1, 1, 0), (0, 0.25, 0.75), (1, 0, 1.5)]
+P_SHORT = [0.0, 1e-30, 0.1, 0.25, 0.5, 0.9, 1 - 2.0 ** -53, 1.0]
+
+
+def rand_mag(rng):
+    """a positive double anywhere in the representable range (log-uniform over all 632 decades, sub-normals included,
+    or at / next to a regime threshold)"""
+    c = rng.random()
+    if c < 0.5:
+        return max(DMIN, min(FMAX, 10.0 ** rng.uniform(-323.4, 308.25)))
+    if c < 0.75:
+        return rng.choice(EDGE_MAGS)
+    if c < 0.9:
+        return rng.choice(DECADES)
+    return max(DMIN, min(FMAX, rng.choice(EDGE_MAGS) * rng.choice([0.5, 2, 3, 0.1, 10, rng.uniform(0.5, 2)])))
+
+
+def rand_xlim(rng, zeros=None):
+    """a limit with one or two zeros whose non-zero components range over the whole double range: independent
+    magnitudes (dynamic range up to 1e632), one common extreme scale times ordinary numbers (both components matter),
+    or a near-tie at an extreme scale"""
+    if zeros is None:
+        zeros = rng.choice([(0,), (1,), (2,), (0, 1), (0, 2), (1, 2)])
+    c = rng.random()
+    if c < 0.35:
+        lim = [rand_mag(rng) for _ in range(3)]
+    else:
+        m = rand_mag(rng)
+        if c < 0.8:
+            lim = [m * rng.choice([1, 2, 3, 0.5, 0.25, 7, rng.uniform(0.1, 10)]) for _ in range(3)]
+        else:
+            lim = [m, m, math.nextafter(m, rng.choice([0.0, math.inf]))]
+            rng.shuffle(lim)
+    if rng.random() < 0.3:          # one ordinary component next to extreme ones, e.g. (1e-200, 1e-200, 1)
+        lim[rng.randrange(3)] = float(rand_comp(rng))
+    lim = [max(DMIN, min(FMAX, x)) for x in lim]
+    for i in zeros:
+        lim[i] = rng.choice([0, 0.0])
+    return tuple(lim)
+
+
+def rand_xpos(rng):
+    c = rng.random()
+    if c < 0.6:
+        return rand_pos(rng)
+    if c < 0.8:
+        return rng.choice([-1, 1]) * min(1.0, rand_mag(rng))
+    return rng.choice([-1, -1.0, -0.5, 0, 0.5, 1, 1.0, DMIN, -DMIN, FMIN, -FMIN, 1e-300, -1e-300])
+
+
 SCALARS = [-1, 0, 1, 2, 3, True, False, -1.0, -0.0, 0.0, 1e-12, 0.5, 1.0, 3.0, 1e12, -1e-12,
            float('nan'), float('inf'), float('-inf'), '', 'X', 'y', 'Z', 'x', 'Y', 'z', 'a', 'XY', '1', None]
 LIM_COMPS = [0, 0.0, -0.0, 1, 0.5, 2.5, 3, -1, -0.5, float('nan'), float('inf'), float('-inf'), True, False, 1e-12]
 POS_VALS = [-1, -1.0, -0.5, 0, 0.0, 0.5, 1, 1.0, 1.0000001, -1.0000001, 2, -2, float('nan'), float('inf'),
             float('-inf'), None, 'a', True, False, [1], (0.5,)]
+
+
+def _num(x):
+    return isinstance(x, (int, float)) and not isinstance(x, bool)
+
+
+def in_domain(model, args):
+    """the documented constructor domain (written from the docstrings, exact comparisons on the values themselves:
+    no products, no sums, no tolerances - the magnitude of a parameter never matters).  bool is accepted where the
+    unchanged tree's duck-typed comparison accepts it (bias True)"""
+    if model == 'bd':
+        b, ax = args
+        return (_num(b) or b is True) and math.isfinite(b) and b > 0 and \
+            isinstance(ax, str) and ax in ('X', 'Y', 'Z', 'x', 'y', 'z')
+    if model == 'byx':
+        b, = args
+        return isinstance(b, (int, float)) and math.isfinite(b) and b >= 0
+    if model == 'slice':
+        lim, pos = args
+        return (isinstance(lim, (tuple, list)) and len(lim) == 3 and lim_class(lim) is None
+                and all(isinstance(x, (int, float)) for x in lim)
+                and sum(1 for x in lim if x != 0) in (1, 2)
+                and isinstance(pos, (int, float)) and -1 <= pos <= 1)
+    raise ValueError(model)
 
 
 def ctor_result(model, args):
@@ -522,6 +671,9 @@ def one_case(ctx, model, args, p):
               'p<1e-9' if p < 1e-9 else 'interior')
     if st != 'ok' or any(not math.isfinite(x) for x in d):
         return st, d
+    if any(k in (K_SO, K_OV) for _, k in fails) or (model == 'slice' and lim_sum_overflows(args[0])):
+        ctx.count('tie.skipped', 'reported under ' + (K_SO if model == 'slice' else K_OV))
+        return st, d            # the whole output is the reported defect: nothing to compare
     if model == 'byx':
         b = args[0]
         ctx.count('byx.bias.decade', 'zero' if b == 0 else int(math.floor(math.log10(b))))
@@ -554,48 +706,70 @@ def one_case(ctx, model, args, p):
     return st, d
 
 
-def special_cases(ctx, p, rng):
+def special_ok(da, db, exact=False):
+    if any(not math.isfinite(x) for x in da + db):
+        return False
+    return (da == db) if exact else all(close(x, Fraction(y), ABS_I) for x, y in zip(da, db))
+
+
+def special_cases(ctx, p, rng, scale=None):
     """documented reductions, real code against real code"""
     def cmp(what, a, b, exact=False):
         (sa, da), (sb, db) = real_dist(*a, p), real_dist(*b, p)
         ctx.count('special', what)
+        k_so = K_SO if a[0] == 'slice' and lim_sum_overflows(a[1][0]) else None
         if sa != 'ok' or sb != 'ok':
-            return      # an exception is reported by the per-model monitor
-        ok = (da == db) if exact else all(close(x, Fraction(y), ABS_I) for x, y in zip(da, db))
-        if not ok:
+            ctx.monitor_fail('special case: {} — {} raised {}'.format(what, label(*(a if sa != 'ok' else b)),
+                                                                    da if sa != 'ok' else db),
+                             {'model': a[0], 'args': jsonable(a[1]), 'p': p}, key=k_so)
+            return
+        ok = special_ok(da, db, exact)
+        if not ok and k_so:
+            ctx.monitor_fail('special case: {} — {} gives {!r}'.format(what, label(*a), da),
+                             {'model': a[0], 'args': jsonable(a[1]), 'p': p}, key=k_so)
+        elif not ok:
             ctx.monitor_fail('special case: {} — {} gives {!r} but {} gives {!r}'.format(
                 what, label(*a), da, label(*b), db), {'special': what, 'a': [a[0], jsonable(a[1])],
                                                       'b': [b[0], jsonable(b[1])], 'p': p}, key=None)
     for ax in 'XYZ':
         cmp('bias 1/2 is depolarizing', ('bd', (0.5, ax)), ('dep', ()))
-    cmp('pos 0 is depolarizing', ('slice', (rand_lim(rng), 0)), ('dep', ()))
+    cmp('pos 0 is depolarizing', ('slice', (rand_lim(rng) if scale is None else rand_xlim(rng), 0)), ('dep', ()))
     cmp('bias 0 is bit-flip', ('byx', (0,)), ('bf', ()), exact=True)
     cmp('bias 0.0 is bit-flip', ('byx', (0.0,)), ('bf', ()), exact=True)
-    k = rng.choice([1, 2.0, 0.3, 1e-9, 1e9])
+    k = rng.choice([1, 2.0, 0.3, 1e-9, 1e9]) if scale is None else scale
     cmp('unit X limit at pos 1 is bit-flip', ('slice', ((k, 0, 0), 1)), ('bf', ()))
     cmp('unit Y limit at pos 1 is bit-phase-flip', ('slice', ((0, k, 0), 1)), ('bpf', ()))
     cmp('unit Z limit at pos 1 is phase-flip', ('slice', ((0, 0, k), 1.0)), ('pf', ()))
 
 
-def slice_info_case(ctx, lim, pos):
+def info_check(lim, pos):
+    """(vals, what): the nine floats lim + ratio + neg_lim of the real model (None if unavailable) and the violated
+    claim (None if they are points of the triangle)"""
     st, em = ctor_result('slice', (lim, pos))
     if st != 'ok':
-        ctx.monitor_fail('CenterSliceErrorModel rejects an in-domain (lim, pos) with ' + st,
-                         {'ctor': 'slice', 'args': [list(lim), pos]}, key=None)
-        return
+        return None, 'CenterSliceErrorModel rejects an in-domain (lim, pos) with ' + st
     with warnings.catch_warnings():
         warnings.simplefilter('ignore')
         try:
             vals = [float(x) for x in em.lim] + [float(x) for x in em.ratio] + [float(x) for x in em.neg_lim]
         except Exception as ex:  # noqa: BLE001
-            ctx.monitor_fail('CenterSliceErrorModel.lim/ratio/neg_lim raised ' + type(ex).__name__,
-                             {'ctor': 'slice', 'args': [list(lim), pos]}, key=None)
-            return
-    if any(x < -1e-15 for x in vals) or any(abs(sum(vals[i:i + 3]) - 1) > 1e-12 for i in (0, 3, 6)) or \
+            return None, 'CenterSliceErrorModel{}.lim/ratio/neg_lim raised {}'.format((lim, pos), type(ex).__name__)
+    if any(not math.isfinite(x) for x in vals) or \
+            any(x < -1e-15 for x in vals) or any(abs(sum(vals[i:i + 3]) - 1) > 1e-12 for i in (0, 3, 6)) or \
             min(abs(x) for x in vals[6:9]) > 1e-15 or min(abs(x) for x in vals[0:3]) != 0:
-        ctx.monitor_fail('CenterSliceErrorModel{}: lim / ratio / neg_lim are not points of the triangle (sum 1, '
-                         'entries >= 0, limits on the boundary): {!r}'.format((lim, pos), vals),
-                         {'ctor': 'slice', 'args': [list(lim), pos]}, key=None)
+        return vals, ('CenterSliceErrorModel{}: lim / ratio / neg_lim are not points of the triangle (finite, sum 1, '
+                      'entries >= 0, limits on the boundary): {!r}'.format((lim, pos), vals))
+    return vals, None
+
+
+def slice_info_case(ctx, lim, pos):
+    k_so = K_SO if lim_sum_overflows(lim) else None
+    vals, what = info_check(lim, pos)
+    if what:
+        ctx.monitor_fail(what, {'info': [list(lim), pos]}, key=k_so)
+        ctx.count('monitor', k_so or 'FRESH:slice.info')
+    if vals is None or k_so or any(not math.isfinite(x) for x in vals):
+        return
     line = 'c16 slice.info {} {} {} {}'.format(*[rat(x) for x in lim], rat(pos))
 
     def post(reply, vals=vals):
@@ -627,22 +801,32 @@ def ctor_cases(ctx):
     rng = ctx.rng
     # biased depolarizing / biased Y-X: full product over the scalar universe (+ a sequence)
     axes = ['X', 'Y', 'Z', 'x', 'y', 'z', '', 'a', 'XY', None, 1, ['X'], 0.5]
-    for b in SCALARS + [[1.0], (2,)]:
-        for ax in axes:
-            wb, wa = pv(b), pv(ax)
-            st, em = ctor_result('bd', (b, ax))
-            impl = st if st != 'ok' else 'ok {} {}'.format(rat(Fraction(em.bias)), em.axis)
-            ctx.case('c16 ctor bd {} {}'.format(wb, wa), impl, nontrivial=st != 'ok',
-                     meta={'ctor': 'bd', 'args': [b, ax]})
-            ctx.count('ctor.bd', st)
-            indom = isinstance(b, (int, float)) and not isinstance(b, bool) and math.isfinite(b) and b > 0 and \
-                ax in ('X', 'Y', 'Z', 'x', 'y', 'z')
-            ctor_monitor(ctx, 'bd', (b, ax), st, indom or (b is True and ax in ('X', 'Y', 'Z', 'x', 'y', 'z')))
+    def bd_case(b, ax):
+        st, em = ctor_result('bd', (b, ax))
+        impl = st if st != 'ok' else 'ok {} {}'.format(rat(Fraction(em.bias)), em.axis)
+        ctx.case('c16 ctor bd {} {}'.format(pv(b), pv(ax)), impl, nontrivial=st != 'ok',
+                 meta={'ctor': 'bd', 'args': [b, ax]})
+        ctx.count('ctor.bd', st)
+        ctor_monitor(ctx, 'bd', (b, ax), st, in_domain('bd', (b, ax)))
+
+    def byx_case(b):
         st, em = ctor_result('byx', (b,))
         impl = st if st != 'ok' else 'ok {}'.format(rat(Fraction(em.bias)))
         ctx.case('c16 ctor byx {}'.format(pv(b)), impl, nontrivial=st != 'ok', meta={'ctor': 'byx', 'args': [b]})
         ctx.count('ctor.byx', st)
-        ctor_monitor(ctx, 'byx', (b,), st, isinstance(b, (int, float)) and math.isfinite(b) and b >= 0)
+        ctor_monitor(ctx, 'byx', (b,), st, in_domain('byx', (b,)))
+
+    for b in SCALARS + [[1.0], (2,)]:
+        for ax in axes:
+            bd_case(b, ax)
+        byx_case(b)
+    # the ends of the double range and the thresholds of x*x / 1/x, both signs: every positive (non-negative) finite
+    # bias is in the domain
+    xb = [DMIN, FMIN, 1e-310, 1e-300, 1e-160, 1e160, 1e300, FMAX, math.sqrt(FMAX), 1 / math.sqrt(FMAX)]
+    for b in xb + [-x for x in xb] + rng.sample(EDGE_MAGS, 8):
+        for ax in ('X', 'z', 'a'):
+            bd_case(b, ax)
+        byx_case(b)
     # centre slice
     fixed = [None, 1, 0.5, True, [], (1,), (1, 0), (1, 0, 0, 0), (0, 0, 0), (0.0, -0.0, 0), (1, 1, 1), (0.5, 2.5, 3),
              (1, 0, 0), [0, 2, 0], (0, 0.5, 0.5), (-1, 0.5, 0), (float('nan'), 0, 0), (float('inf'), 1, 0)]
@@ -650,6 +834,26 @@ def ctor_cases(ctx):
     for _ in range(ctx.scale(1500, 10000)):
         lim = tuple(rng.choice(LIM_COMPS) for _ in range(3))
         pairs += [(lim, rng.choice(POS_VALS)) for _ in range(3)]
+    # magnitudes: the domain is decided by the values themselves (sign, zero / non-zero, finiteness, order against
+    # +-1) - an interior point (three positive components) is outside the domain even when the product or the sum of
+    # its components underflows; a boundary point is inside however small / large / unbalanced its components are
+    xpos = [DMIN, -DMIN, FMIN, -FMIN, 1e-300, -1e-300, math.nextafter(1, 2), -math.nextafter(1, 2), 1e300, -1e300,
+            FMAX, -FMAX, 1, -1, 1.0, -1.0, 0.5, 0]
+    for _ in range(ctx.scale(500, 5000)):
+        c = rng.random()
+        if c < 0.5:
+            lim = rand_xlim(rng, zeros=())
+        elif c < 0.55:
+            lim = tuple(rng.choice([0, 0.0, -0.0]) for _ in range(3))
+        else:
+            lim = rand_xlim(rng)
+        ctx.count('ctor.slice.extreme', '{} zeros'.format(sum(1 for x in lim if x == 0)))
+        pairs.append((lim, rng.choice(xpos) if rng.random() < 0.5 else rand_xpos(rng)))
+    for m in DECADES + EDGE_MAGS[::7]:      # the same interior shapes at every scale
+        for shape in ((1, 1, 1), (1, 1, 0), (1, 0, 0)):
+            pairs.append((tuple(float(m * x) for x in rng.sample(shape, 3)), rng.choice([1, 0.5, -1])))
+        k = rng.choice([1.0, 3, 0.5])
+        pairs.append((tuple(rng.sample([m, m, k], 3)), rng.choice([1, 0.5, -1])))
     for lim, pos in pairs:
         if True:
             st, em = ctor_result('slice', (lim, pos))
@@ -676,10 +880,7 @@ def ctor_cases(ctx):
                     {'ctor': 'slice', 'args': [list(lim), pos], 'p': 0.3}, key=K_D4 if cls == 'negative' else K_NF)
                 ctx.count('monitor', K_D4 if cls == 'negative' else K_NF)
             else:
-                indom = (isinstance(lim, (tuple, list)) and len(lim) == 3 and cls is None
-                         and sum(1 for x in lim if x != 0) in (1, 2)
-                         and isinstance(pos, (int, float)) and -1 <= pos <= 1)
-                ctor_monitor(ctx, 'slice', (lim, pos), st, indom)
+                ctor_monitor(ctx, 'slice', (lim, pos), st, in_domain('slice', (lim, pos)))
 
 
 def ctor_monitor(ctx, model, args, st, indom):
@@ -719,6 +920,32 @@ def run(ctx):
         if st == 'ok':
             ctx.case('c16 yxexact {} {}'.format(rat(h), rat(p)), 'ok', nontrivial=True,
                      meta={'model': 'byx', 'args': [h], 'p': p}, post=dist_post(d, p, 'byx', (h,)))
+    # parameter magnitudes over the whole positive double range (sub-normals ... 1.8e308): grid of regime thresholds
+    # and decades, then random
+    xgrid = EDGE_MAGS[::3] + DECADES
+    for n, m in enumerate(xgrid):
+        for j, p in enumerate(P_SHORT):
+            one_case(ctx, 'bd', (m, 'XYZ'[(n + j) % 3]), p)
+            one_case(ctx, 'byx', (m,), p)
+        for j, shape in enumerate(X_SHAPES):
+            lim = tuple(float(m * x) for x in shape)
+            if any(math.isinf(x) for x in lim) or not any(lim):
+                continue
+            for i, pos in enumerate((1, 0.5, 0, -0.5, -1)):
+                one_case(ctx, 'slice', (lim, pos), P_SHORT[2 + (n + j + i) % 6])
+            if j % 3 == n % 3:
+                slice_info_case(ctx, lim, (1, -1, 0.5, -0.5, 0)[(n + j) % 5])
+    for _ in range(ctx.scale(2500, 40000)):
+        p = rand_p(rng) if rng.random() < 0.7 else rng.choice(P_SHORT)
+        b = rand_mag(rng)
+        one_case(ctx, 'bd', (b, rng.choice('XYZxyz')), p)
+        one_case(ctx, 'byx', (b if rng.random() < 0.7 else rand_mag(rng),), p)
+        lim, pos = rand_xlim(rng), rand_xpos(rng)
+        one_case(ctx, 'slice', (lim, pos), p)
+        if rng.random() < 0.2:
+            slice_info_case(ctx, lim, pos)
+        if rng.random() < 0.1:      # pos 0 / unit limits at any scale
+            special_cases(ctx, p, rng, scale=rand_mag(rng))
     # random
     for _ in range(ctx.scale(8000, 150000)):
         p = rand_p(rng)
@@ -739,9 +966,9 @@ def run(ctx):
                 'and compared with a rigorous rational enclosure of the documented closed form'}}
     ctx.assumptions = ['IEEE-754 double arithmetic and math.sqrt of CPython / numpy as installed (not modelled)',
                        'fractions.Fraction (exact value of a float) in the harness',
-                       'bias restricted to [1e-15, 1e15], limit components to [1e-15, 1e15], p = 0 or p >= 1e-30 '
-                       '(entries below 1e-290 underflow and are not compared): beyond ~1e154 the '
-                       'biased-Y-X closed form raises OverflowError (not explored)']
+                       'p = 0 or p >= 1e-30; parameters over the whole positive double range; entries whose exact '
+                       'value is below 1e-290 underflow and are not compared; Python ints beyond the double range '
+                       'are not explored']
     return ctx.finish(RULE, search=search, explanation=__doc__)
 
 
@@ -757,14 +984,29 @@ def eval_recipe(r):
             _, d = real_dist('slice', args, r.get('p', 0.3))
             return {'what': 'CenterSliceErrorModel accepts a limit with a {} component'.format(lim_class(args[0])),
                     'args': args, 'p': r.get('p', 0.3), 'distribution': d}
+        targs = tuple(tuple(a) if isinstance(a, list) and model == 'slice' else a for a in args)
+        try:
+            indom = in_domain(model, targs)
+        except Exception:  # noqa: BLE001 - values outside the universe of the domain predicate
+            return None
+        if indom and st != 'ok':
+            return {'what': '{} rejects documented-domain arguments with {}'.format(label(model, targs), st),
+                    'ctor': model, 'args': args}
+        if not indom and st not in ('ValueError', 'TypeError'):
+            out = {'what': '{} accepts arguments outside the documented domain ({})'.format(label(model, targs), st),
+                   'ctor': model, 'args': args}
+            if st == 'ok':
+                out['probability_distribution(0.3)'] = real_dist(model, targs, 0.3)[1]
+            return out
         return None
     if 'special' in r:
         (sa, da), (sb, db) = real_dist(r['a'][0], r['a'][1], r['p']), real_dist(r['b'][0], r['b'][1], r['p'])
-        if sa == sb == 'ok' and not all(close(x, Fraction(y), ABS_I) for x, y in zip(da, db)):
+        if sa == sb == 'ok' and not special_ok(tuple(da), tuple(db)):
             return {'what': 'special case fails: ' + r['special'], 'a': da, 'b': db, 'p': r['p']}
         return None
     if 'info' in r:
-        return None
+        vals, what = info_check(tuple(r['info'][0]), r['info'][1])
+        return {'what': what, 'lim': r['info'][0], 'pos': r['info'][1], 'values': vals} if what else None
     st, d, fails = evaluate(r['model'], r['args'], r['p'])
     if fails:
         return {'what': '{}.probability_distribution({!r}): {}'.format(label(r['model'], r['args']), r['p'],
